@@ -79,7 +79,8 @@ def alphabet(tier, expanded, extent_a):
             ev.append(["add_ds", r, 0, None])
             for pol in (None, True, False):
                 ev.append(["save_merge", r, (r + 1) % 2, pol])
-        ev.append(["expand"])
+        if extent_a:  # (nothing to expand in an empty harvester)
+            ev.append(["expand"])
     for x in sorted(extent_a)[:2 if tier == "quick" else 3]:
         ev.append(["drop", x])
     ev.append(["new_session"])
